@@ -106,7 +106,11 @@ def run(rep: Report, ctx: Any) -> str:
                       "code running inside pydantic validation raises only ValueError/AssertionError (no unguarded `in`/subscript on "
                       "Any); values of untrusted Any sources are not returned as containers without an isinstance check; a document "
                       "value handed to a container operation (iteration, len, `in`, subscription) has no scalar type (bool / int / "
-                      "float) among its abstract types unless an isinstance test excludes it on every way there")
+                      "float) among its abstract types unless an isinstance test excludes it on every way there; a document value that "
+                      "is hashed (looked up in / stored into a dict or set) has no unhashable type (list / dict / set / untyped Any) "
+                      "among its abstract types unless a try around the operation catches TypeError; a document value handed to a "
+                      "parameter declared as a (non-optional) container cannot be None: an absent optional section has been replaced by an "
+                      "empty container or tested on every way to the call")
     rep.rule("R06.3", "every call through a dynamically imported property template is guarded by `{% if alias.macro %}` or every "
                       "template the alias can denote defines the macro")
     rep.rule("R06.4", "every while loop and every recursive cycle of the call graph has one of five ranking arguments, decided on the "
@@ -132,6 +136,8 @@ def run(rep: Report, ctx: Any) -> str:
         "pathologically deep documents) and hangs inside them are not decided",
         "the --path / --url argument and the config file are the user's own (a missing file or malformed URL is outside the quantifier)",
         "pydantic wraps ValueError and AssertionError raised by validators into ValidationError; other exceptions propagate",
+        "a value that passed `isinstance(v, <class held in a field>)` (an enum's value_type) is taken to be hashable: the classes kept "
+        "there are the scalar value types of an enumeration",
     ]
 
     # ------------------------------------------------------------------------------------------------- R06.1
@@ -281,6 +287,12 @@ def run(rep: Report, ctx: Any) -> str:
 
     # (iv) container operations on document values that may be scalars
     _container_operations(rep, ctx, [f for f in funcs if not f.module.name.startswith(f"{PKG}.schema") or f in validators], validators)
+
+    # (v) hash operations on document values that may be unhashable
+    _hash_operations(rep, ctx, [f for f in funcs if not f.module.name.startswith(f"{PKG}.schema") or f in validators], validators)
+
+    # (vi) optional sections of the document handed on where a container is expected
+    _none_arguments(rep, ctx, [f for f in funcs if not f.module.name.startswith(f"{PKG}.schema")])
 
     # ------------------------------------------------------------------------------------------------- R06.3
     rep.floor("dispatch_sites", len(ji.dispatches), 40)
@@ -1724,9 +1736,16 @@ def _progress_rounds(rnd: _Round, why: _Why) -> str | None:
     return None
 
 
-def _origins(e: ast.AST | None, lc: Any, params: set[str], seen: frozenset[str] = frozenset(), depth: int = 0) -> set[tuple[str, bool]]:
+_COPY_WITH = {"evolve", "replace"}  # attr.evolve / dataclasses.replace / copy.replace: a copy of the first argument with the named attributes replaced
+
+
+def _origins(e: ast.AST | None, lc: Any, params: set[str], seen: frozenset[str] = frozenset(), depth: int = 0,
+             at: tuple[Any, FuncInfo, tuple[str, ...]] | None = None) -> set[tuple[str, bool]]:
     """(parameter, strict): the value may be the parameter itself (strict False) or something reached from it by attribute access,
-    subscription or iteration (strict True)"""
+    subscription or iteration (strict True).  The value is followed through the locals of the function and - when `at` = (index,
+    function, functions being followed) is given - through the functions of the repository it is obtained from: what a helper
+    returns or a generator yields, expressed in the helper's own parameters, is mapped back through the arguments (and the
+    receiver) of the call.  A value that is not followed has no origin: the call that hands it on does not count as a descent."""
     if e is None or depth > 8:
         return set()
     strict = lambda o: {(p, True) for p, _ in o}  # noqa: E731
@@ -1737,41 +1756,121 @@ def _origins(e: ast.AST | None, lc: Any, params: set[str], seen: frozenset[str] 
         for kind, _, v in lc.defs.get(e.id, []):
             if v is None or kind.startswith(("aug", "with", "except")):
                 continue
-            o = _origins(v, lc, params, seen | {e.id}, depth + 1)
-            out |= strict(o) if (kind.startswith("for") or "[" in kind) else o
+            if kind.startswith("for"):  # an element of v (a component of it when the target is a tuple)
+                o = _elem_origins(v, lc, params, seen | {e.id}, depth + 1, at)
+                out |= strict(o) if "[" in kind else o
+                continue
+            if "[" in kind and kind.count("[") == 1 and isinstance(v, (ast.Tuple, ast.List)) and not any(isinstance(x, ast.Starred) for x in v.elts):
+                i = int(kind[kind.index("[") + 1:kind.index("]")])  # `a, b = x, y`
+                if i < len(v.elts):
+                    out |= _origins(v.elts[i], lc, params, seen | {e.id}, depth + 1, at)
+                    continue
+            o = _origins(v, lc, params, seen | {e.id}, depth + 1, at)
+            out |= strict(o) if "[" in kind else o
         return out
     if isinstance(e, (ast.Attribute, ast.Subscript, ast.Starred)) and not isinstance(e, ast.Starred):
-        return strict(_origins(e.value, lc, params, seen, depth + 1))
+        return strict(_origins(e.value, lc, params, seen, depth + 1, at))
     if isinstance(e, ast.Starred):
-        return _origins(e.value, lc, params, seen, depth + 1)
+        return _origins(e.value, lc, params, seen, depth + 1, at)
     if isinstance(e, ast.Call):
         if isinstance(e.func, ast.Attribute) and e.func.attr in _ELEMENT_METHODS:
-            return strict(_origins(e.func.value, lc, params, seen, depth + 1))
-        if call_name(e).rsplit(".", 1)[-1] in _WRAPPERS:
+            return strict(_origins(e.func.value, lc, params, seen, depth + 1, at))
+        last = call_name(e).rsplit(".", 1)[-1]
+        if last in _WRAPPERS or last in _COPY_WITH:
             out = set()
-            for a in e.args:
-                out |= _origins(a, lc, params, seen, depth + 1)
+            for a in [*e.args, *([k.value for k in e.keywords] if last in _COPY_WITH else [])]:
+                out |= _origins(a, lc, params, seen, depth + 1, at)
             return out
-        return set()
+        return _origins_through_call(e, lc, params, seen, depth, at) if at is not None else set()
     if isinstance(e, ast.IfExp):
-        return _origins(e.body, lc, params, seen, depth + 1) | _origins(e.orelse, lc, params, seen, depth + 1)
+        return _origins(e.body, lc, params, seen, depth + 1, at) | _origins(e.orelse, lc, params, seen, depth + 1, at)
     if isinstance(e, ast.BoolOp):
         out = set()
         for v in e.values:
-            out |= _origins(v, lc, params, seen, depth + 1)
+            out |= _origins(v, lc, params, seen, depth + 1, at)
         return out
     if isinstance(e, (ast.Tuple, ast.List, ast.Set)):
         out = set()
         for v in e.elts:
-            out |= _origins(v, lc, params, seen, depth + 1)
+            out |= _origins(v, lc, params, seen, depth + 1, at)
         return out
     if isinstance(e, (ast.ListComp, ast.GeneratorExp, ast.SetComp)):
-        return _origins(e.elt, lc, params, seen, depth + 1)
+        return _origins(e.elt, lc, params, seen, depth + 1, at)
     if isinstance(e, ast.NamedExpr):
-        return _origins(e.value, lc, params, seen, depth + 1)
+        return _origins(e.value, lc, params, seen, depth + 1, at)
     if isinstance(e, ast.Await):
-        return _origins(e.value, lc, params, seen, depth + 1)
+        return _origins(e.value, lc, params, seen, depth + 1, at)
     return set()
+
+
+def _elem_origins(v: ast.AST | None, lc: Any, params: set[str], seen: frozenset[str], depth: int,
+                  at: tuple[Any, FuncInfo, tuple[str, ...]] | None) -> set[tuple[str, bool]]:
+    """origins of the ELEMENTS an iteration over v produces.  A container written out (a display, a comprehension, what a generator
+    of the repository yields, copies and chains of such) hands on exactly what was put into it - iterating over `[p]` is not a
+    descent into p; the elements of anything else are strict sub-objects of it."""
+    if v is None or depth > 8:
+        return set()
+    rec = lambda x: _elem_origins(x, lc, params, seen, depth + 1, at)  # noqa: E731
+    if isinstance(v, (ast.Tuple, ast.List, ast.Set)):
+        out: set[tuple[str, bool]] = set()
+        for x in v.elts:
+            out |= rec(x.value) if isinstance(x, ast.Starred) else _origins(x, lc, params, seen, depth + 1, at)
+        return out
+    if isinstance(v, (ast.ListComp, ast.GeneratorExp, ast.SetComp)):
+        return _origins(v.elt, lc, params, seen, depth + 1, at)
+    if isinstance(v, (ast.IfExp, ast.BoolOp)):
+        return {o for x in _alternatives(v) for o in rec(x)}
+    if isinstance(v, (ast.NamedExpr, ast.Await, ast.Starred)):
+        return rec(v.value)
+    if isinstance(v, ast.Name) and v.id not in seen and v.id not in params:
+        defs = [(k, x) for k, _, x in lc.defs.get(v.id, [])]
+        if defs and all(k == "assign" and x is not None for k, x in defs):
+            return {o for _, x in defs for o in _elem_origins(x, lc, params, seen | {v.id}, depth + 1, at)}
+    if isinstance(v, ast.Call):
+        last = call_name(v).rsplit(".", 1)[-1]
+        if last in _WRAPPERS and last not in ("cast", "deepcopy", "copy") and v.args and not (isinstance(v.func, ast.Attribute) and v.func.attr in _ELEMENT_METHODS):
+            return {o for x in (v.args[-1:] if last == "filter" else v.args) for o in rec(x)}
+        if last == "cast" and len(v.args) == 2:
+            return rec(v.args[1])
+        if at is not None and _callee(at[0], at[1], v) is not None:
+            return _origins_through_call(v, lc, params, seen, depth, at, elements=True)
+    return {(p, True) for p, _ in _origins(v, lc, params, seen, depth + 1, at)}
+
+
+def _origins_through_call(e: ast.Call, lc: Any, params: set[str], seen: frozenset[str], depth: int,
+                          at: tuple[Any, FuncInfo, tuple[str, ...]], elements: bool = False) -> set[tuple[str, bool]]:
+    """origins of the result of a call to a function of the repository (plain name, nested function, self / cls method) - or, with
+    `elements`, of what an iteration over the result produces: those of the values it returns (a generator: of the values it
+    yields), in terms of its own parameters, mapped through the call's arguments and receiver"""
+    from ..astutil import Locals
+
+    ix, f, stack = at
+    h = _callee(ix, f, e)
+    if h is None or h.qual in stack or len(stack) >= 3:
+        return set()
+    own = _own_nodes(h.node)
+    hlc = Locals(h.node)
+    hparams = {p.arg for p in h.params}
+    hat = (ix, h, (*stack, f.qual))
+    inner: set[tuple[str, bool]] = set()
+    if any(isinstance(n, (ast.Yield, ast.YieldFrom)) for n in own):
+        # the result is a generator: it holds what it yields
+        for n in own:
+            if isinstance(n, ast.Yield) and n.value is not None:
+                inner |= _origins(n.value, hlc, hparams, frozenset(), depth + 1, hat)
+            elif isinstance(n, ast.YieldFrom):
+                inner |= _elem_origins(n.value, hlc, hparams, frozenset(), depth + 1, hat)
+    else:
+        for n in own:
+            if isinstance(n, ast.Return) and n.value is not None:
+                inner |= (_elem_origins if elements else _origins)(n.value, hlc, hparams, frozenset(), depth + 1, hat)
+    out: set[tuple[str, bool]] = set()
+    first = h.params[0].arg if h.params and h.kind in ("method", "classmethod") else None
+    for p, is_strict in inner:
+        a = e.func.value if p == first and isinstance(e.func, ast.Attribute) else _arg_for(h, e, p)
+        o = _origins(a, lc, params, seen, depth + 1, at)
+        out |= {(q, True) for q, _ in o} if is_strict else o
+    return out
 
 
 def _structural(ix: Any, fs: list[FuncInfo], edges: dict[str, set[str]]) -> tuple[str | None, str]:
@@ -1807,7 +1906,7 @@ def _structural(ix: Any, fs: list[FuncInfo], edges: dict[str, set[str]]) -> tupl
                 n_desc += 1
                 continue
             handed = list(c.args) + [k.value for k in c.keywords] + ([c.func.value] if isinstance(c.func, ast.Attribute) else [])
-            orig = [_origins(a, lc, params) for a in handed]
+            orig = [_origins(a, lc, params, at=(ix, f, ())) for a in handed]
             whole = {p for o in orig for p, s in o if not s}
             if any(s and p not in whole for o in orig for p, s in o):
                 n_desc += 1
@@ -2240,12 +2339,24 @@ def _excludes(classes: list[str], outcome: bool, scalars: set[str]) -> bool:
     return all(any(c in numeric[s] or c in wide for c in classes) for s in scalars)
 
 
-def _scalar_excluded(f: FuncInfo, ix: Any, node: ast.AST, text: str, scalars: set[str]) -> bool:
+def _excludes_unhashable(classes: list[str], outcome: bool, unhashable: set[str]) -> bool:
+    """the outcome of isinstance(x, classes) rules out that x (a value of the document: the unhashable ones are lists and mappings) is
+    unhashable"""
+    containers = {"list", "dict", "set", "bytearray", "List", "Dict", "Set", "Mapping", "MutableMapping", "Sequence", "MutableSequence",
+                  "Iterable", "Collection", "Container"}
+    wide = {"object", "Any", "Hashable"} | containers
+    if outcome:
+        return not any(c in wide for c in classes)
+    return {"list", "dict"} <= set(classes) or bool({"Sequence", "MutableSequence", "list"} & set(classes)) and bool({"Mapping", "MutableMapping", "dict"} & set(classes))
+
+
+def _scalar_excluded(f: FuncInfo, ix: Any, node: ast.AST, text: str, scalars: set[str], _excludes: Any = None) -> bool:
     """on every way to the operation an isinstance test on the operand (same text) has ruled the scalar types out - inside the
     expression (arms of a conditional expression, later operands of and / or) or on every path of the statement CFG"""
     from ..astutil import stmt_of
     from ..cfg import own_exprs
 
+    _excludes = _excludes or globals()["_excludes"]
     found = False
 
     def rec(cur: ast.AST, guarded: bool) -> None:
@@ -2313,6 +2424,170 @@ def _container_operations(rep: Report, ctx: Any, funcs: list[FuncInfo], validato
                           f"(abstract type {sorted(av.types)[:6]}) and that no isinstance test has narrowed: {exc} instead of a diagnostic",
                           where(f, node), lhs=sorted(av.types)[:8], rhs="a container type, or an isinstance test on every way to the operation")
     rep.floor("container_operations_on_document_values", n_ops, 12)
+
+
+_UNHASHABLE = {"Any", "list", "dict", "set"}
+_HASHING_METHODS = {"get", "pop", "setdefault", "add", "discard", "remove", "count", "index"}
+
+
+def _hash_uses(fn: ast.AST, it: Any) -> list[tuple[str, ast.AST, ast.expr, bool]]:
+    """(operation, node, operand, elements) for every operation of the function that hashes its operand (elements: the elements of
+    its operand): membership test in / subscription of / keyed method of a dict or set (the container's abstract type says which),
+    keys of dict displays and comprehensions, elements of set displays and comprehensions, set() / frozenset() / dict.fromkeys()"""
+    def kinds(e: ast.AST) -> set[str]:
+        av = it.node_av.get(id(e))
+        if av is None and isinstance(e, (ast.Dict, ast.DictComp)):
+            return {"dict"}
+        if av is None and isinstance(e, (ast.Set, ast.SetComp)):
+            return {"set"}
+        return set(av.types) & {"dict", "set", "frozenset"} if av is not None else set()
+
+    out: list[tuple[str, ast.AST, ast.expr, bool]] = []
+    for n in _own_nodes(fn):
+        if isinstance(n, ast.Compare) and len(n.ops) == 1 and isinstance(n.ops[0], (ast.In, ast.NotIn)) and kinds(n.comparators[0]):
+            out.append(("lookup with `in`", n, n.left, False))
+        elif isinstance(n, ast.Subscript) and not isinstance(n.slice, ast.Slice) and "dict" in kinds(n.value):
+            out.append(("use as a dict key", n, n.slice, False))
+        elif isinstance(n, ast.Call) and isinstance(n.func, ast.Attribute) and n.func.attr in _HASHING_METHODS and n.args and kinds(n.func.value) \
+                and not (n.func.attr in ("count", "index", "pop", "remove") and "list" in getattr(it.node_av.get(id(n.func.value)), "types", ())):
+            out.append((f".{n.func.attr}()", n, n.args[0], False))
+        elif isinstance(n, ast.Dict):
+            out += [("use as a dict key", n, k, False) for k in n.keys if k is not None]
+        elif isinstance(n, ast.DictComp):
+            out.append(("use as a dict key", n, n.key, False))
+        elif isinstance(n, ast.Set):
+            out += [("use as a set element", n, k, False) for k in n.elts if not isinstance(k, ast.Starred)]
+        elif isinstance(n, ast.SetComp):
+            out.append(("use as a set element", n, n.elt, False))
+        elif isinstance(n, ast.Call) and call_name(n) in ("set", "frozenset", "dict.fromkeys") and n.args:
+            out.append((f"{call_name(n)}()", n, n.args[0], True))
+    return out
+
+
+def _hash_operations(rep: Report, ctx: Any, funcs: list[FuncInfo], validators: list[FuncInfo]) -> None:
+    """R06.2 (v).  Instances: every hash operation whose operand is document-derived (abstract interpreter).  Obligation: the
+    operand's abstract type - what the pydantic field it comes from admits, narrowed by the isinstance tests on the way - contains no
+    unhashable type (list, dict, set, or the untyped Any of `default` / `example` / `const` / enum members), or the operation sits in
+    a try that catches TypeError.  A class object (`type(x)`) and a string built from the value are hashable whatever the value is."""
+    from ..astutil import role_anon
+
+    it, _ = ctx.flow
+    n_ops = 0
+    for f in funcs:
+        for what, node, operand, elements in _hash_uses(f.node, it):
+            for alt in _alternatives(operand):
+                if isinstance(alt, ast.Call) and call_name(alt) in ("type", "str", "repr", "id", "hash", "len", "bool", "int", "float", "tuple") and not elements:
+                    continue
+                av = it.node_av.get(id(alt))
+                if av is not None and elements:
+                    av = av.elem
+                if av is None or not (av.labels & {RAW, RAW_NONSTR, UNKNOWN}):
+                    continue
+                n_ops += 1
+                unhashable = set(av.types) & _UNHASHABLE
+                ok = not unhashable or caught("TypeError", handlers_around(f.node, node)) \
+                    or _scalar_excluded(f, ctx.py, alt, norm(alt), unhashable, _excludes_unhashable)
+                exc = "TypeError" if f not in validators else "TypeError (not wrapped into ValidationError)"
+                rep.check(ok, "R06.2", f"{short(f)}::{what} of {role_anon(alt, f.node)[:50]}",
+                          f"{what}: `{norm(alt)[:60]}`{' (its elements)' if elements else ''} is hashed, a value taken from the document that may be "
+                          f"a {' / '.join(sorted(unhashable))} (abstract type {sorted(av.types)[:6]}) and that no isinstance test has narrowed: "
+                          f"{exc} `unhashable type` instead of a diagnostic", where(f, node), lhs=sorted(av.types)[:8],
+                          rhs="a hashable type, or an isinstance test on every way to the operation, or a try that catches TypeError")
+    rep.floor("hash_operations_on_document_values", n_ops, 10)
+
+
+_CONTAINER_ANNOTATIONS = ("dict[", "Dict[", "list[", "List[", "set[", "Set[", "Mapping[", "MutableMapping[", "Sequence[", "Iterable[", "Collection[",
+                          "tuple[", "Tuple[")
+
+
+def _container_annotation(ann: ast.AST | None) -> bool:
+    """the parameter is declared as a container and not as optional"""
+    txt = norm(ann).strip("'\"") if ann is not None else ""
+    return bool(txt) and (txt.startswith(_CONTAINER_ANNOTATIONS) or txt in ("dict", "list", "set")) and "None" not in txt and "Optional" not in txt
+
+
+def _may_be_none(it: Any, f: FuncInfo, fl: "_Flow", lc: Any, e: ast.AST | None, st: ast.AST | None, seen: frozenset[str] = frozenset(),
+                 depth: int = 0) -> bool:
+    """can the expression e, evaluated in the statement st of f, be None.  `a or b` hands on only truthy values of a, `a and b` any
+    falsy value of a; a name, attribute, subscript or call can be None when the interpreter has None among its abstract types and no
+    test on the same expression (truthiness, `is not None`; in the statement itself or on every path that leads to it, looking
+    through boolean locals) rules it out; a local that is only assigned is as good as what it is assigned from, where it is assigned."""
+    from ..astutil import stmt_of
+
+    if e is None or depth > 6:
+        return False
+    if isinstance(e, ast.Constant):
+        return e.value is None
+    if isinstance(e, ast.BoolOp):
+        if isinstance(e.op, ast.Or):
+            return _may_be_none(it, f, fl, lc, e.values[-1], st, seen, depth + 1)
+        return any(_may_be_none(it, f, fl, lc, v, st, seen, depth + 1) for v in e.values)
+    if isinstance(e, ast.IfExp):
+        return _may_be_none(it, f, fl, lc, e.body, st, seen, depth + 1) or _may_be_none(it, f, fl, lc, e.orelse, st, seen, depth + 1)
+    if isinstance(e, (ast.NamedExpr, ast.Await)):
+        return _may_be_none(it, f, fl, lc, e.value, st, seen, depth + 1)
+    if not isinstance(e, (ast.Name, ast.Attribute, ast.Subscript, ast.Call)):
+        return False
+    av = it.node_av.get(id(e))
+    if av is None or "None" not in av.types:
+        return False
+    text = norm(e)
+
+    def not_none(test: ast.expr, outcome: bool) -> bool:
+        return any(fact in (("truthy", text, True), ("differs", text, "None")) for atom, val in _implied_deep(test, outcome, lc)
+                   for fact in _atom_facts(atom, val))
+
+    if any(not_none(t, v) for t, v in _guards_in_statement(st, e)):
+        return False
+    if st is not None and not fl.reach([(_ENTRY, None, b) for b, _ in fl.out(_ENTRY)], [st],
+                                       stop_edge=lambda a, lab: lab is not None and isinstance(a, (ast.If, ast.While)) and not_none(a.test, lab)):
+        return False
+    if isinstance(e, ast.Name) and e.id not in seen and e.id not in [p.arg for p in f.params]:
+        defs = lc.defs.get(e.id, [])
+        if defs and all(k == "assign" and v is not None for k, _, v in defs):
+            return any(_may_be_none(it, f, fl, lc, v, s if isinstance(s, ast.stmt) else stmt_of(f.node, s), seen | {e.id}, depth + 1)
+                       for _, s, v in defs)
+    return True
+
+
+def _none_arguments(rep: Report, ctx: Any, funcs: list[FuncInfo]) -> None:
+    """R06.2 (vi).  Instances: every argument that is document-derived (abstract interpreter) and is received by a parameter of a function
+    of the repository declared as a container (dict[..], list[..], set[..], Mapping, Sequence, ...) and not as optional - the callee,
+    or a function it hands the value on to, applies container operations and methods to it.  Obligation: the argument cannot be None
+    (`_may_be_none`): an optional section of the document has been replaced by an empty container or tested before it is handed on."""
+    from ..astutil import Locals, role_anon, stmt_of
+
+    ix = ctx.py
+    it, _ = ctx.flow
+    n_args = 0
+    for f in funcs:
+        fl: _Flow | None = None
+        lc = None
+        for c in _own_nodes(f.node):
+            if not isinstance(c, ast.Call):
+                continue
+            hs = _callees(ix, it, f, c)
+            if not hs:
+                continue
+            given: list[tuple[int | str, ast.expr]] = [(i, a) for i, a in enumerate(c.args) if not isinstance(a, ast.Starred)]
+            given += [(k.arg, k.value) for k in c.keywords if k.arg]
+            for pos, a in given:
+                pars = [(h, par) for h in hs if (p := _param_for(h, c, pos)) is not None for par in h.params if par.arg == p]
+                if not pars or not all(_container_annotation(par.annotation) for _, par in pars):
+                    continue
+                if not any((x := it.node_av.get(id(w))) is not None and x.labels & {RAW, RAW_NONSTR, UNKNOWN} for w in _alternatives(a)):
+                    continue
+                if fl is None:
+                    fl, lc = _Flow(f, ix), Locals(f.node)
+                n_args += 1
+                h, par = pars[0]
+                ok = not _may_be_none(it, f, fl, lc, a, stmt_of(f.node, c))
+                rep.check(ok, "R06.2", f"{short(f)}::{h.name}({par.arg}={role_anon(a, f.node)[:50]})",
+                          f"`{norm(a)[:60]}`, a value taken from the document that may be None (an optional section that is absent), is handed to "
+                          f"`{h.name}` as `{par.arg}: {norm(par.annotation)[:40]}` without a fallback or a test: AttributeError / TypeError on None "
+                          "instead of a diagnostic where the callee uses it", where(f, c), lhs=norm(a)[:60],
+                          rhs="an empty container instead of None (`x or {}`), or a test on every way to the call")
+    rep.floor("document_arguments_to_container_parameters", n_args, 6)
 
 
 # ---------------------------------------------------------------------------------------------------------------------------------
@@ -3212,44 +3487,367 @@ def _exit_status(rep: Report, ctx: Any, cfgs: dict[str, CFG]) -> None:
     # with no diagnostics at all the function ends without an exit status
     rep.check(not ((res[(True, False, False)] | res[(True, False, True)]) & {"exit1", "exit?"}), "R06.5", "cli.handle_errors::early-return",
               "handle_errors can exit with status 1 although there are no diagnostics", where(he, he.node))
-    # cli.generate hands the result of generate() to handle_errors with fail_on_warning
-    g = ix.func("cli.generate")
+    _diagnostics_forwarded(rep, ctx, he, cfgs)
+    _no_write_on_rejection(rep, ctx)
+
+
+# ---------------------------------------------------------------------------------------------------------------------------------
+# R06.5, the two clauses around handle_errors.  Both are stated on values (what a call can run is what the abstract interpreter
+# resolved the called expression to; where a value comes from is followed through locals, parameters and call sites), never on the
+# name of a local or on which function of the entry region a statement sits in.
+
+def _callees(ix: Any, it: Any, f: FuncInfo, c: ast.Call) -> list[FuncInfo]:
+    """the functions of the repository a call can run: what the interpreter resolved the called name to (a class: its construction
+    hooks), a method looked up on the abstract types of the receiver, else the name as written"""
+    out: list[FuncInfo] = []
+
+    def add(h: FuncInfo | None) -> None:
+        if h is not None and h not in out:
+            out.append(h)
+
+    def of_class(ci: Any) -> None:
+        for m in ("__init__", "__new__", "__post_init__", "__attrs_post_init__"):
+            add(ix.find_method(ci, m))
+
+    av = it.node_av.get(id(c.func))
+    for kind, q in (av.funcs if av is not None else ()):
+        if kind == "func":
+            add(it.func_by_qual.get(q))
+        elif kind == "class" and q in ix.classes:
+            of_class(ix.classes[q])
+    if isinstance(c.func, ast.Attribute):
+        rav = it.node_av.get(id(c.func.value))
+        if rav is not None:
+            for q in sorted({q for kind, q in rav.funcs if kind == "class"} | set(rav.types)):
+                if q in ix.classes:
+                    add(ix.find_method(ix.classes[q], c.func.attr))
+    if not out:
+        d = dotted(c.func)
+        r = ix.resolve(f.module, d) if d else None
+        if r is not None and r[0] == "class":
+            of_class(r[1])
+        else:
+            add(_callee(ix, f, c))
+    return out
+
+
+def _value_sources(ix: Any, it: Any, f: FuncInfo, e: ast.AST | None, depth: int = 0, seen: frozenset[str] = frozenset()) -> list[tuple[FuncInfo, ast.AST]]:
+    """where the value of an expression of f can come from: (function, node) with node a call, a parameter (ast.arg) nobody in the
+    repository is seen to supply, or another expression that is not followed.  Locals are followed through their bindings,
+    conditional / boolean expressions through their alternatives, copying wrappers through their argument, a parameter through the
+    argument at every call site of f in the repository."""
     from ..astutil import Locals
 
-    results = set(Locals(g.node).bound_from(lambda v: v.startswith("generate("), "assign"))
-    hcalls = [c for c in ast.walk(g.node) if isinstance(c, ast.Call) and call_name(c) == "handle_errors"]
-    ok4 = any(c.args and (norm(c.args[0]) in results or norm(c.args[0]).startswith("generate(")) and
-              (len(c.args) > 1 and norm(c.args[1]) == "fail_on_warning" or any(k.arg == "fail_on_warning" and norm(k.value) == "fail_on_warning" for k in c.keywords))
-              for c in hcalls)
-    rep.check(ok4, "R06.5", "cli.generate::handle_errors", "the CLI does not pass the generator's diagnostics and fail_on_warning to handle_errors",
-              where(g, g.node), lhs=[norm(c) for c in hcalls], rhs="handle_errors(<result of generate(...)>, fail_on_warning)")
-    # no write on rejection: generate() returns [project] (a GeneratorError) before project.build(); _get_project... has no effects
+    if e is None:
+        return []
+    if isinstance(e, (ast.IfExp, ast.BoolOp, ast.NamedExpr)):
+        return [x for a in _alternatives(e) for x in _value_sources(ix, it, f, a, depth, seen)] if not isinstance(e, ast.NamedExpr) \
+            else _value_sources(ix, it, f, e.value, depth, seen)
+    if isinstance(e, (ast.Starred, ast.Await)):
+        return _value_sources(ix, it, f, e.value, depth, seen)
+    if isinstance(e, ast.Call) and call_name(e).rsplit(".", 1)[-1] in _WRAPPERS and e.args and not _callees(ix, it, f, e):
+        return _value_sources(ix, it, f, e.args[-1], depth, seen)
+    if isinstance(e, ast.Name) and f"{f.qual}:{e.id}" not in seen and depth < 6:
+        seen = seen | {f"{f.qual}:{e.id}"}
+        out: list[tuple[FuncInfo, ast.AST]] = []
+        for kind, _, v in Locals(f.node).defs.get(e.id, []):
+            if v is None or kind.startswith(("aug", "except")):
+                continue
+            if "[" in kind and isinstance(v, (ast.Tuple, ast.List)) and kind.count("[") == 1:
+                i = int(kind[kind.index("[") + 1:kind.index("]")])
+                v = v.elts[i] if i < len(v.elts) and not any(isinstance(x, ast.Starred) for x in v.elts) else v
+            out += _value_sources(ix, it, f, v, depth + 1, seen)
+        par = next((p for p in f.params if p.arg == e.id), None)
+        if par is not None:
+            sites = [(g, c) for g in ix.all_functions if g is not f for c in _own_nodes(g.node)
+                     if isinstance(c, ast.Call) and call_name(c).rsplit(".", 1)[-1] == f.name and f in _callees(ix, it, g, c)]
+            supplied = [(g, a) for g, c in sites if (a := _arg_for(f, c, e.id)) is not None]
+            if supplied and depth < 4:
+                for g, a in supplied:
+                    out += _value_sources(ix, it, g, a, depth + 1, seen)
+            else:
+                out.append((f, par))
+        if out:
+            return out
+    return [(f, e)]
+
+
+def _diagnostics_forwarded(rep: Report, ctx: Any, he: FuncInfo, cfgs: dict[str, CFG]) -> None:
+    """Instances: every call of the package's generate() outside its own module.  Obligation: the diagnostics it returns reach
+    handle_errors - the first argument of a handle_errors call has that call among the sources of its value, the argument received
+    as `fail_on_warning` comes from a parameter of that name (the command line option), and every path from the generate() call to
+    the end of the function passes a statement at which handle_errors runs (in place, or in a function called there)."""
+    from ..astutil import Locals, stmt_of
+    from .effects import performing
+
+    ix = ctx.py
+    it, _ = ctx.flow
+    gen = ix.func(f"{PKG}.generate")
+    runs = [(g, c) for g in ix.all_functions if g.module is not gen.module for c in _own_nodes(g.node)
+            if isinstance(c, ast.Call) and gen in _callees(ix, it, g, c)]
+    rep.require(runs, "a call of generate() in the command line interface")
+    hcalls = [(g, c) for g in ix.all_functions for c in _own_nodes(g.node) if isinstance(c, ast.Call) and he in _callees(ix, it, g, c)]
+    diag_param = next(p.arg for p in he.params if p.arg != "fail_on_warning")
+    for g, run in runs:
+        good: list[ast.Call] = []
+        for hg, hc in hcalls:
+            first = _arg_for(he, hc, diag_param)
+            flag = _arg_for(he, hc, "fail_on_warning")
+            if any(n is run for _, n in _value_sources(ix, it, hg, first)) and \
+                    any(isinstance(n, ast.arg) and n.arg == "fail_on_warning" for _, n in _value_sources(ix, it, hg, flag)):
+                good.append(hc)
+        ok = bool(good)
+        why = "no handle_errors call receives the result of this generate() call together with the fail_on_warning option"
+        if ok:
+            # a path may go round handle_errors only after a test that there are no diagnostics (handle_errors does nothing then)
+            st = stmt_of(g.node, run)
+            at = performing(ix, g, lambda n: any(n is hc for hc in good), cfgs, must=True)
+            fl = _Flow(g, ix)
+            held = _aliases_of(Locals(g.node), run, copies=True)
+            empty = lambda a, lab: any(fact[0] == "truthy" and fact[1] in held and fact[2] is False for fact in fl.facts(a, lab))  # noqa: E731
+            if st is None or (not any(s is st for s in at) and fl.reach([(st, lab, b) for b, lab in fl.out(st)], [EXIT], stop_edge=empty,
+                                                                        stop_node=lambda n: any(n is s for s in at))):
+                ok = False
+                why = "a path from the generate() call to the end of the command does not pass handle_errors"
+        rep.check(ok, "R06.5", f"{short(g)}::handle_errors", f"the CLI does not pass the generator's diagnostics and fail_on_warning to handle_errors ({why})",
+                  where(g, run), lhs=[norm(c)[:80] for _, c in hcalls], rhs="handle_errors(<result of generate(...)>, <the fail_on_warning option>) on every path")
+
+
+def _error_classes(ix: Any) -> set[str]:
+    roots = [c for c in ix.classes.values() if c.name == "GeneratorError"]
+    return {k.qual for r in roots for k in [r, *ix.subclasses(r)]}
+
+
+_CONSTRUCTION = ("__init__", "__new__", "__post_init__", "__attrs_post_init__")
+
+
+def _no_write_on_rejection(rep: Report, ctx: Any) -> None:
+    """A rejected document is an error VALUE (GeneratorError or a subclass) that a stage of generate() hands back instead of its result.
+    Instances: (1) every call in the entry region - generate() and, transitively, the functions whose result it tests for being such an
+    error - that can perform a filesystem / process effect (an effect site, or a call of a function from which one is reachable in
+    the call graph); (2) the calls that build what such a call is applied to or given (followed back through locals, returns of the
+    stages and parameters: `Project(...)` for `project.build()`).  Obligations per instance: (a) no value it is given (receiver,
+    arguments) can still be the error - its abstract type, narrowed by the interpreter along the paths that lead there, holds no
+    error class; (b) no call that can hand back an error (a STAGE) performs an effect itself or can run after an effect; (c) every
+    path from a stage to the instance passes a test that rules the error out for the stage's result.  Where the stages and the
+    tests are written - in generate(), in a helper, inlined - is immaterial."""
+    from ..astutil import Locals, stmt_of
     from .effects import effect_sites
 
-    eff = effect_sites(ix)
+    ix = ctx.py
+    it, _ = ctx.flow
+    errs = _error_classes(ix)
+    rep.require(errs, "the class GeneratorError")
     gen = ix.func(f"{PKG}.generate")
-    gp = ix.func(f"{PKG}._get_project_for_url_or_path")
-    gd = ix.func(f"{PKG}._get_document")
-    ld = ix.func(f"{PKG}._load_yaml_or_json")
-    for f in (gen, gp, gd, ld, ix.func("Project.__init__"), ix.func("GeneratorData.from_dict")):
-        mine = [e for e in eff if e.func is f]
-        rep.check(not mine, "R06.5", f"{short(f)}::no-effects", f"filesystem/process effect before the document is accepted: "
-                  f"{[e.what for e in mine]}", where(f, f.node), lhs=[e.what for e in mine], rhs="no effect sites")
-    cfg_g = cfg_of(gen, cfgs)
-    from ..astutil import Locals as _L
+    # (`replace` / `rename` are also methods of str: a receiver the interpreter knows to be a string is no filesystem effect)
+    sites = [e for e in effect_sites(ix)
+             if not (e.what in ("replace", "rename") and (av := it.node_av.get(id(e.target))) is not None and av.types and "Path" not in av.types)]
+    effectful = {e.func.qual for e in sites}
+    changed = True
+    while changed:
+        changed = False
+        for a, bs in it.call_edges.items():
+            if a not in effectful and bs & effectful:
+                effectful.add(a)
+                changed = True
 
-    projs = set(_L(gen.node).bound_from(lambda v: v.startswith("_get_project_for_url_or_path("), "assign"))
-    builds = [s for s in cfg_g.stmts() if any(isinstance(c.func, ast.Attribute) and c.func.attr == "build" and norm(c.func.value) in projs
-                                               for c in stmt_calls(s, ".build"))]
-    rets = [s for s in cfg_g.stmts() if isinstance(s, ast.Return) and isinstance(s.value, ast.List) and len(s.value.elts) == 1 and norm(s.value.elts[0]) in projs]
+    def may_be_error(n: ast.AST) -> set[str]:
+        av = it.node_av.get(id(n))
+        return set(av.types) & errs if av is not None else set()
 
-    def _reject(n: ast.AST) -> bool:
-        return (isinstance(n, ast.If) and any(norm(n.test) == f"isinstance({p_}, GeneratorError)" for p_ in projs) and bool(n.body)
-                and n.body[-1] in rets)
+    def is_stage(g: FuncInfo, c: ast.Call) -> bool:
+        return bool(may_be_error(c)) and any(h.name not in _CONSTRUCTION for h in _callees(ix, it, g, c))
 
-    guard_ok = bool(builds) and bool(rets) and all(cfg_g.is_dominated_by(b, _reject) for b in builds)
-    rep.check(guard_ok, "R06.5", "generate::reject-before-build", "project.build() is reachable for a rejected document",
-              where(gen, gen.node), lhs=[norm(b) for b in builds], rhs="dominated by `if isinstance(project, GeneratorError): return [project]`")
+    def operands(c: ast.Call) -> list[ast.expr]:
+        return [*([c.func.value] if isinstance(c.func, ast.Attribute) else []), *c.args, *[k.value for k in c.keywords]]
+
+    region: list[FuncInfo] = [gen]
+    level = [gen]
+    for _ in range(3):
+        nxt: list[FuncInfo] = []
+        for g in level:
+            for c in _own_nodes(g.node):
+                if isinstance(c, ast.Call) and is_stage(g, c):
+                    nxt += [h for h in _callees(ix, it, g, c) if h not in region and h not in nxt and h.name not in _CONSTRUCTION]
+        region += nxt
+        level = nxt
+    # (1) the calls of the region that can perform an effect
+    work: list[tuple[FuncInfo, ast.Call, str, int]] = []
+    for g in region:
+        direct = {id(e.node) for e in sites if e.func is g}
+        for c in _own_nodes(g.node):
+            if not isinstance(c, ast.Call):
+                continue
+            cands = _callees(ix, it, g, c)
+            if not cands and isinstance(c.func, ast.Attribute) and (rav := it.node_av.get(id(c.func.value))) is not None and rav.types and set(rav.types) <= errs:
+                # the receiver can only be an error here (none of its classes has the method): judged as the method of that name that
+                # was meant - obligation (a) then reports the receiver
+                cands = [h for h in ix.all_functions if h.name == c.func.attr and h.cls is not None]
+            if (hs := [h for h in cands if h.qual in effectful]) or id(c) in direct:
+                work.append((g, c, "/".join(sorted({h.name for h in hs})) or call_name(c).rsplit(".", 1)[-1], 0))
+    n_eff = len(work)
+    rep.require(work, "a call in generate() (or a function whose result it tests) from which a filesystem effect is reachable")
+    # (2) ... and the calls that build what they are given
+    stages_seen: set[int] = set()
+    done: set[int] = set()
+    i = 0
+    while i < len(work):
+        g, c, what, lvl = work[i]
+        i += 1
+        if id(c) in done:
+            continue
+        done.add(id(c))
+        if lvl < 2:
+            for x in operands(c):
+                for sf, n in _value_sources(ix, it, g, x):
+                    if not isinstance(n, ast.Call) or sf not in region:
+                        continue
+                    builders = [(sf, n)]
+                    if is_stage(sf, n):  # what the stage hands back when it does not hand back an error
+                        builders = [(sf2, n2) for h in _callees(ix, it, sf, n) if h in region
+                                    for r in _own_nodes(h.node) if isinstance(r, ast.Return) and r.value is not None
+                                    for sf2, n2 in _value_sources(ix, it, h, r.value) if isinstance(n2, ast.Call) and sf2 in region]
+                    for sf2, n2 in builders:
+                        hs2 = _callees(ix, it, sf2, n2)
+                        if hs2 and not is_stage(sf2, n2) and not may_be_error(n2) and id(n2) not in done:
+                            work.append((sf2, n2, "->".join([norm(n2.func)[:30], what]), lvl + 1))
+        calls = [k for k in _own_nodes(g.node) if isinstance(k, ast.Call)]
+        stages = [k for k in calls if is_stage(g, k)]
+        stages_seen |= {id(k) for k in stages}
+        fl = _Flow(g, ix)
+        lc = Locals(g.node)
+        key = f"{short(g)}::no-write-on-rejection[{what}]"
+        st_c = stmt_of(g.node, c)
+        bad: list[str] = []
+        unknown: list[str] = []
+        # (a) what the call is given: the interpreter's narrowed type, or - for a local it did not narrow (a test kept in a flag, an
+        # alias) - the same question asked of the paths from the local's bindings to the call
+        for x in operands(c):
+            if (t := may_be_error(x)):
+                binds = [st for kind, st, v in lc.defs.get(x.id, []) if kind == "assign"] if isinstance(x, ast.Name) and st_c is not None else []
+                held_x = _alias_closure(lc, {x.id}) if isinstance(x, ast.Name) else set()
+                if binds and len(binds) == len(lc.defs.get(x.id, [])) and not any(
+                        fl.reach([(b, lab, n) for n, lab in fl.out(b)], [st_c], stop_edge=_rules_out(ix, lc, held_x, t)) for b in binds if b is not st_c):
+                    continue
+                bad.append(f"`{norm(x)[:40]}` can still be {sorted(q.rsplit('.', 1)[-1] for q in t)} when it is handed to `{norm(c.func)}`")
+        for s_ in stages:
+            st_s = stmt_of(g.node, s_)
+            if s_ is c:
+                bad.append(f"`{norm(c.func)}` performs an effect and can still hand back an error")
+                continue
+            if st_s is None or st_c is None or st_s is st_c:
+                continue
+            # (b) the effect is not followed by a stage that can still reject
+            if lvl == 0 and fl.reach([(st_c, lab, b) for b, lab in fl.out(st_c)], [st_s]):
+                bad.append(f"`{norm(s_.func)}`, which can still reject the document, can run after `{norm(c.func)}`")
+            # (c) between the stage and the effect the error is ruled out
+            held = _aliases_of(lc, s_)
+            rules_out = _rules_out(ix, lc, held, may_be_error(s_))
+
+            def looks(n: object, held: set[str] = held) -> bool:
+                tests = [n.test] if isinstance(n, (ast.If, ast.While)) else [n.subject] if isinstance(n, ast.Match) else []
+                return isinstance(n, ast.Try) or bool({x.id for e_ in tests for x in ast.walk(e_) if isinstance(x, ast.Name)} & held)
+
+            edges0 = [(st_s, lab, b) for b, lab in fl.out(st_s)]
+            if any(rules_out(ast.If(test=t, body=[ast.Pass()], orelse=[]), v) for t, v in _guards_in_statement(st_c, c)):
+                continue  # ruled out inside the statement: an arm of a conditional expression, a later operand of and / or
+            if fl.reach(edges0, [st_c], stop_edge=rules_out):
+                if fl.reach(edges0, [st_c], stop_edge=rules_out, stop_node=looks):
+                    bad.append(f"`{norm(c.func)}` is reached from `{norm(s_.func)}` on a path that never looks at what the stage handed back")
+                else:
+                    unknown.append(f"the test between `{norm(s_.func)}` and `{norm(c.func)}` on the stage's result is not an isinstance test")
+        if not bad and unknown:
+            rep.require(False, f"deciding whether the error is ruled out before the effect ({unknown[0]})")
+        rep.check(not bad, "R06.5", key, f"a filesystem / process effect is possible for a rejected document: {'; '.join(bad[:3])}",
+                  where(g, c), lhs=bad[:3], rhs="effects only after every stage's error has been ruled out")
+    rep.floor("effectful_calls_in_entry_region", n_eff, 1)
+    rep.floor("rejecting_stages_before_effects", len(stages_seen), 1)
+
+
+def _aliases_of(lc: Any, call: ast.Call, copies: bool = False) -> set[str]:
+    """the locals that hold the result of the call: bound to it, or to another such local (copies=True: or to a list / tuple /
+    sorted copy of one - as good as the original where only its emptiness matters)"""
+    def is_it(v: ast.AST | None) -> bool:
+        if copies and isinstance(v, ast.Call) and len(v.args) == 1 and not v.keywords and call_name(v) in ("list", "tuple", "sorted"):
+            v = v.args[0]
+        return v is call or (isinstance(v, ast.NamedExpr) and v.value is call)
+
+    held = {nm for nm, ds in lc.defs.items() for kind, _, v in ds if kind == "assign" and is_it(v)}
+    return _alias_closure(lc, held, copies)
+
+
+def _alias_closure(lc: Any, held: set[str], copies: bool = False) -> set[str]:
+    """... and the locals that are plain copies of them (in either direction: `b = a` makes a test on b a test on a)"""
+    held = set(held)
+    for _ in range(3):
+        for nm, ds in lc.defs.items():
+            for kind, _, v in ds:
+                if copies and isinstance(v, ast.Call) and len(v.args) == 1 and not v.keywords and call_name(v) in ("list", "tuple", "sorted"):
+                    v = v.args[0]
+                if kind == "assign" and isinstance(v, ast.Name) and ((v.id in held) != (nm in held)) and len(ds) == 1:
+                    held |= {nm, v.id}
+    return held
+
+
+def _guards_in_statement(st: ast.AST | None, node: ast.AST) -> list[tuple[ast.expr, bool]]:
+    """(test, outcome) known when `node` is evaluated, from the statement's own expressions: the test of a conditional expression it is
+    an arm of, the earlier operands of an `and` (true) / `or` (false) it is a later operand of"""
+    from ..cfg import own_exprs
+
+    parent: dict[int, ast.AST] = {}
+    for root in (own_exprs(st) if isinstance(st, (ast.stmt, ast.ExceptHandler)) else []):  # type: ignore[arg-type]
+        for p in ast.walk(root):
+            for ch in ast.iter_child_nodes(p):
+                parent[id(ch)] = p
+    out: list[tuple[ast.expr, bool]] = []
+    cur: ast.AST = node
+    while id(cur) in parent:
+        p = parent[id(cur)]
+        if isinstance(p, ast.IfExp) and cur is not p.test:
+            out.append((p.test, cur is p.body))
+        elif isinstance(p, ast.BoolOp):
+            i = next((k for k, v in enumerate(p.values) if v is cur), 0)
+            out += [(v, isinstance(p.op, ast.And)) for v in p.values[:i]]
+        cur = p
+    return out
+
+
+def _implied_deep(test: ast.expr, outcome: bool, lc: Any, depth: int = 0) -> list[tuple[ast.expr, bool]]:
+    """_implied, looking through boolean locals: an atom that is a local bound once (`rejected = isinstance(x, E)`) also implies
+    what its definition implies"""
+    out = list(_implied(test, outcome))
+    for atom, v in list(out):
+        if isinstance(atom, ast.Name) and depth < 2:
+            ds = lc.defs.get(atom.id, [])
+            if len(ds) == 1 and ds[0][0] == "assign" and ds[0][2] is not None:
+                out += _implied_deep(ds[0][2], v, lc, depth + 1)  # type: ignore[arg-type]
+    return out
+
+
+def _rules_out(ix: Any, lc: Any, held: set[str], etypes: set[str]) -> Any:
+    """edge predicate: the outcome of the test the edge leaves rules out that one of the locals `held` is an error of `etypes`"""
+    def pred(a: object, lab: bool | None) -> bool:
+        if lab is None or not isinstance(a, (ast.If, ast.While)):
+            return False
+        for atom, v in _implied_deep(a.test, lab, lc):
+            for nm in held:
+                cl = _isinstance_of(atom, nm)
+                if cl is not None and _excludes_errors(ix, cl, v, etypes):
+                    return True
+        return False
+
+    return pred
+
+
+def _excludes_errors(ix: Any, classes: list[str], outcome: bool, etypes: set[str]) -> bool:
+    """the outcome of isinstance(x, classes) rules out that x is one of the error classes etypes (qualified names)"""
+    def supers(q: str) -> set[str]:
+        ci = ix.classes.get(q)
+        return {k.name for k in ix.mro(ci)} if ci is not None else {q.rsplit(".", 1)[-1]}
+
+    if outcome:
+        return not any(c in ("object", "Any") or any(c in supers(q) for q in etypes) for c in classes)
+    return all(any(c in supers(q) for c in classes) for q in etypes)
 
 
 def _diagnostics_returned(rep: Report, ctx: Any) -> None:
